@@ -28,6 +28,17 @@ def gen_case(rng, transport):
         more = k > 0 or rng.random() < 0.2
         ops.append("call %d %s %s %d" % (1 if more else 0, m.hex(), params, k + 1))
         expect.append((params, vals, more))
+    if rng.random() < 0.15:
+        # the handler sends its replies and then ends the connection itself (returns an error) while the client is still busy with the
+        # first replies: everything that was sent before must still arrive
+        m = iface + b".Last"
+        k = rng.choice([4, 9, 20])
+        vals = ["{70:S%s;,6e:D%s;}" % ((b"z" * rng.choice([10, 700, 5000])).hex(), str(j).encode().hex()) for j in range(k + 1)]
+        secs.append(S.script_text(m, [S.Step("r", "e", cont=(j < k), val=v) for j, v in enumerate(vals)], True))
+        ops.append("slowcall 1 %s {} %d" % (m.hex(), k + 1))
+        expect.append(("{}", vals, True))
+        if rng.random() < 0.6:
+            transport = "bridge"      # the bridge process ends by itself when the service hangs up
     return " | ".join(secs + ["transport " + transport] + ops), expect
 
 
